@@ -168,7 +168,9 @@ func (c *Ctx) RunNamed(names []string, workers int, fn func(cs *Case)) {
 			defer wg.Done()
 			for name := range ch {
 				cs := c.newCase(name)
+				stuckDone := c.watchStuck(cs.Name)
 				func() {
+					defer stuckDone()
 					defer func() {
 						if p := recover(); p != nil {
 							// a panic escaping a case is either the library's (the
@@ -196,6 +198,36 @@ func (c *Ctx) RunNamed(names []string, workers int, fn func(cs *Case)) {
 	}
 	close(ch)
 	wg.Wait()
+}
+
+// stuckLimit: a single case that has not finished after this long is reported
+// (with a dump of all goroutines) and ends the run - every case of every check
+// takes seconds, or a few minutes at most, on the unchanged tree, and the
+// public operations it calls are all supposed to return.
+func (c *Ctx) stuckLimit() time.Duration {
+	if c.Quick() {
+		return 25 * time.Minute
+	}
+	return 4 * time.Hour // some thorough-tier cases are one long worker loop
+}
+
+func (c *Ctx) watchStuck(name string) func() {
+	done := make(chan struct{})
+	go func() {
+		select {
+		case <-done:
+		case <-time.After(c.stuckLimit()):
+			buf := make([]byte, 1<<22)
+			buf = buf[:runtime.Stack(buf, true)]
+			dump := string(buf)
+			if len(dump) > 200000 {
+				dump = dump[:200000]
+			}
+			c.violation(name, "hang", nil, fmt.Sprintf("case %s has not finished after %v: a call into the library never returned (goroutine dump in the replay file)", name, c.stuckLimit()), map[string]any{"goroutines": dump})
+			os.Exit(c.Finish())
+		}
+	}()
+	return func() { close(done) }
 }
 
 // AddEvaluations counts executions made outside RunCases.
